@@ -21,6 +21,9 @@ func runC15(w *World, r *Report) {
 	r.Rule("C15-R3", "entries only for dropped state", "every first-time store into a result table is dominated by a Dropped/Dropping state test or the database-gone test", 3)
 	r.Rule("C15-R4", "one key vocabulary, right roles", "keys come from result 1 (drop key) / result 0 (create key) of util.Get*InfoKeys on both the producer and the writer side; arguments carry (partition, collection, database) roles in order", 8)
 
+	r.Rule("C15-R5", "name keys are injective", "each util.Get*InfoKeys joins its name components so that distinct (database, collection, partition) tuples give distinct keys: between two adjacent name components the format has a character that cannot occur in a Milvus name (names are letters, digits, '_' and '$')", 3)
+	ruleC15KeyInjective(w, r)
+
 	fn := w.Func(pkgReader, "EtcdOp", "GetAllDroppedObj")
 	if fn == nil {
 		r.Undecided("C15-R1", "GetAllDroppedObj", 0, "anchor not found")
@@ -296,4 +299,49 @@ func loopCarried(v ssa.Value, h *ssa.BasicBlock, fam *Family) ssa.Value {
 		return nil
 	}
 	return walk(v, 0)
+}
+
+// ruleC15KeyInjective: C15-R5 (also the key vocabulary of C08). One obligation per key function.
+func ruleC15KeyInjective(w *World, r *Report) {
+	for _, name := range []string{"GetDBInfoKeys", "GetCollectionInfoKeys", "GetPartitionInfoKeys"} {
+		f := w.Func(pkgUtil, "", name)
+		cons := "util." + name + " | key composition"
+		if f == nil {
+			r.Undecided("C15-R5", cons, 0, "anchor not found")
+			continue
+		}
+		nStr := 0
+		for _, p := range f.Params {
+			if isStringType(p.Type()) {
+				nStr++
+			}
+		}
+		if nStr < 2 {
+			r.OK("C15-R5", cons, f.Pos(), "a single name component")
+			continue
+		}
+		var comps []compKey
+		for _, k := range allComposites(f) {
+			if returnsValue(f, k.Value()) {
+				comps = append(comps, k)
+			}
+		}
+		if len(comps) == 0 {
+			r.Undecided("C15-R5", cons, f.Pos(), "the function takes several names but no Sprintf / concatenation / strings.Join composing them reaches its results: the key composition is not understood")
+			continue
+		}
+		bad := ""
+		covered := 0
+		for _, k := range comps {
+			covered += len(k.Args)
+			for _, i := range k.Ambig {
+				bad = fmt.Sprintf("%s between component %d and %d the separator is %q", k.Format, i+1, i+2, k.Seps[i])
+			}
+		}
+		if bad == "" && covered < nStr {
+			r.Undecided("C15-R5", cons, f.Pos(), fmt.Sprintf("only %d of %d name components are seen in the composite", covered, nStr))
+			continue
+		}
+		r.Check(bad == "", "C15-R5", cons, f.Pos(), "adjacent name components are separated by a character outside the name alphabet", "the key is ambiguous ("+bad+"): two different objects whose names join to the same string (database a + collection b_c, database a_b + collection c) share one entry of the dropped-object tables, so operations on the live one are skipped with the other's drop time")
+	}
 }
